@@ -44,6 +44,36 @@ def similarity(a, b):
 def canonicalise(d):
     spec = json.load(open(SPEC))
     info = {'functions': {}, 'fields': {}, 'types': {}}
+    # ---- renamed (or renamed-and-moved) private types: same field list / same variant list under a new name
+    tren = {}
+    cur_structs = d.get('structs', {})
+    cur_short = collections.Counter(k.split('::')[-1] for k in cur_structs)
+    pin_short = {k.split('::')[-1] for k in spec.get('structs', {})}
+    for sp, pfields in spec.get('structs', {}).items():
+        if sp in cur_structs or cur_short[sp.split('::')[-1]] >= 1 or not pfields:
+            continue
+        want = [(n, short_ty(t)) for n, t in pfields]
+        cands = [k for k, v in cur_structs.items() if k not in spec['structs'] and k.split('::')[-1] not in pin_short
+                 and [(f['name'], short_ty(f['ty'])) for f in v] == want]
+        if len(cands) == 1:
+            tren[cands[0]] = sp
+    cur_enums = d.get('enums', {})
+    cur_eshort = collections.Counter(k.split('::')[-1] for k in cur_enums)
+    pin_eshort = {k.split('::')[-1] for k in spec.get('enums', {})}
+    for ep, pvars in spec.get('enums', {}).items():
+        if ep in cur_enums or cur_eshort[ep.split('::')[-1]] >= 1 or ep.startswith(('std::', 'core::', 'alloc::')):
+            continue
+        want = sorted(pvars.values()) if isinstance(pvars, dict) else sorted(n for _, n in pvars)
+        cands = [k for k, v in cur_enums.items() if k not in spec['enums'] and k.split('::')[-1] not in pin_eshort
+                 and sorted(n for _, n in v) == want]
+        if len(cands) == 1:
+            tren[cands[0]] = ep
+    if tren:
+        info['types'] = dict(tren)
+        txt = json.dumps(d)
+        for newp, oldp in sorted(tren.items(), key=lambda kv: -len(kv[0])):
+            txt = re.sub(r'(?<![\w:])' + re.escape(newp) + r'(?![\w])', oldp.replace('\\', '\\\\'), txt)
+        d = json.loads(txt)
     bodies = d['bodies']
     prod = [b for b in bodies if b['kind'] in ('fn', 'assoc') and not is_test_name(b['fn'], b.get('file', ''))]
     cur = {b['fn']: b for b in prod}
